@@ -931,6 +931,26 @@ impl<'s> Gen<'s> {
             1..=3 => Cs::Exact(cv),
             _ => Cs::Min(cv),
         };
+        // a quarter of the grid runs under the deterministic scheduler with the directed strategies: what the
+        // spawning thread sees after a lag period (little, nothing or much left) decides the chunk sizes of late workers
+        let sched = !self.small && idx % 4 == 1;
+        let (len, nt, cs) = if sched {
+            let nt = *[5usize, 6, 8, 10, 16, 64].get(r.below(6) as usize).unwrap_or(&8);
+            let eff = nt.min(16);
+            let len = match r.below(3) {
+                0 => r.range(eff.saturating_sub(4).max(1), eff + 6),
+                1 => r.range(eff, 3 * eff),
+                _ => r.range(20, 90),
+            };
+            let cs = match r.below(4) {
+                0 | 1 => Cs::Auto,
+                2 => Cs::Min(r.range(1, 4)),
+                _ => Cs::Exact(r.range(1, 4)),
+            };
+            (len, nt, cs)
+        } else {
+            (len, nt, cs)
+        };
         let shape = PIPES[r.below(8) as usize];
         let src = SRCS[r.below(4) as usize];
         // the dependency serialises next() of iterator sources with a spin lock: tiny chunks on long inputs with many
@@ -962,9 +982,13 @@ impl<'s> Gen<'s> {
             pre_spare: 0,
             ties: false,
             linear_k: 14,
-            mode: Mode::F,
-            strategy: Strategy::Uniform,
-            sched_seed: 0,
+            mode: if sched { Mode::S } else { Mode::F },
+            strategy: if sched {
+                r.pick(&[Strategy::LagGrow, Strategy::LagGrow, Strategy::StarveOne, Strategy::SpawnerStarved, Strategy::Uniform, Strategy::Pct])
+            } else {
+                Strategy::Uniform
+            },
+            sched_seed: r.next(),
             script: vec![],
             faults: vec![],
             endless: false,
@@ -979,12 +1003,13 @@ impl<'s> Gen<'s> {
     // ---- C16: every pipeline (all type x transformation transitions) x {plain, num_threads(1) set last}
 
     pub fn c16_space(&self) -> u64 {
-        self.shapes.len() as u64 * 6
+        self.shapes.len() as u64 * 9
     }
 
     fn c16_case(&self, idx: u64) -> Option<Case> {
-        let info = self.shapes.get((idx / 6) as usize)?;
-        let variant = idx % 6;
+        let info = self.shapes.get((idx / 9) as usize)?;
+        let variant9 = idx % 9;
+        let variant = variant9 % 6;
         let mut r = Rng::new(idx ^ 0xC16);
         let len = if info.src == 'A' { 8 } else { 12 };
         let depth = info.shape.len();
@@ -1026,9 +1051,24 @@ impl<'s> Gen<'s> {
                 st.fan_var = 1;
             }
         }
-        if variant == 1 || variant == 4 {
+        if variant9 < 6 && (variant == 1 || variant == 4) {
             // num_threads(1) set last: the parameters in effect at the terminal call
             c.setters.push((depth, Setter::Nt(1)));
+        }
+        if variant9 >= 6 {
+            // a sequence of settings: sequential, then a chunk size, then parallel again (at spread positions): the
+            // terminal must run under the last values, whatever was in effect in between
+            let p1 = 0;
+            let p2 = depth / 2;
+            let p3 = depth;
+            let (a, b, d) = match variant9 {
+                6 => (Setter::Nt(1), Setter::Cs(Cs::Exact(5)), Setter::Nt(3)),
+                7 => (Setter::NtFrom(1), Setter::Cs(Cs::Min(4)), Setter::NtAuto),
+                _ => (Setter::Cs(Cs::Exact(2)), Setter::Nt(1), Setter::Nt(4)),
+            };
+            c.setters.push((p1, a));
+            c.setters.push((p2, b));
+            c.setters.push((p3, d));
         }
         Some(c)
     }
